@@ -19,7 +19,7 @@ RULES = {
 CONTROL_REV = '078b142'  # thorough tier: the rules must still report the defects found (and since fixed) on the original tree
 CONTROLS = [('C13.R1', 'DfsEdge::new#seed'), ('C13.R3', 'Bfs::next#n_remaining'), ('C13.R4', 'DfsPre::skip_subtree#reset'), ('C13.R4', 'DfsEdge::skip_subtree#reset'), ('C13.R4', 'Bfs::skip_subtree#reset'), ('C13.R5', 'DfsPre::skip_subtree#size_lb'), ('C13.R5', 'DfsEdge::new#size_lb'), ('C13.R5', '<PolyhedraIter_as_Iterator>::size_hint')]
 WRAPPERS = {
-    'Tree::node_indices': ('Iterator::map(self.arena, closure {closure#0}[])', ['_2.0'], 'the keys of the arena, in index order'),
+    'Tree::node_indices': ('Iterator::map(self.arena, closure {closure#0}[])', ['$1.0'], 'the keys of the arena, in index order'),
     'Tree::node_iter': ('self.arena', [], 'the (index, node) pairs of the arena, in index order'),
     'Tree::get_root_idx': ('self.root', [], 'the stored root index'),
     'Tree::dfs_edge_iter': ('DfsEdge::iter(self, Tree::get_root_idx(self))', [], 'edge traversal from the root'),
@@ -27,9 +27,9 @@ WRAPPERS = {
     'AffTree::len': ('Tree::len(self.tree)', [], 'delegates to the arena tree'),
     'AffTree::num_terminals': ('Tree::num_terminals(self.tree)', [], 'delegates to the arena tree'),
     'AffTree::depth': ('Tree::depth(self.tree)', [], 'delegates to the arena tree'),
-    'AffTree::nodes': ('Iterator::map(Tree::nodes(self.tree), closure {closure#0}[])', ['nd.value'], 'the values of the arena tree\'s nodes'),
-    'AffTree::terminals': ('Iterator::map(Tree::terminals(self.tree), closure {closure#0}[])', ['nd.value'], 'the values of the arena tree\'s terminals'),
-    'AffTree::decisions': ('Iterator::map(Tree::decisions(self.tree), closure {closure#0}[])', ['nd.value'], 'the values of the arena tree\'s decisions'),
+    'AffTree::nodes': ('Iterator::map(Tree::nodes(self.tree), closure {closure#0}[])', ['$1.value'], 'the values of the arena tree\'s nodes'),
+    'AffTree::terminals': ('Iterator::map(Tree::terminals(self.tree), closure {closure#0}[])', ['$1.value'], 'the values of the arena tree\'s terminals'),
+    'AffTree::decisions': ('Iterator::map(Tree::decisions(self.tree), closure {closure#0}[])', ['$1.value'], 'the values of the arena tree\'s decisions'),
 }
 FLOORS = {'C13.R1': 3, 'C13.R2': 3, 'C13.R3': 2, 'C13.R4': 9, 'C13.R5': 6, 'C13.R6': 10, 'C13.R7': 6, 'C13.R8': 3, 'C13.R9': 1}
 EXPLANATION = 'Sibling agreement between the three traversals and pairing/ordering rules on their bookkeeping.'
@@ -639,6 +639,15 @@ def r6(ctx):
         ok = len(rets) == 1 and is_call(rets[0], 'Iterator::count') and is_call(rets[0][2][0], inner)
         if ok and name == 'num_nodes':
             ok = rets[0][2][0][2][1] == ('param', 'node')
+        if not ok and name == 'num_terminals' and len(rets) == 1 and is_call(rets[0], 'Iterator::count'):
+            # the filter of terminal_indices written out: arena entries whose leaf flag is set
+            src, filters = prune.filter_chain(rets[0])
+            pos = False
+            for f in filters:
+                cb, crets = prune.closure_ret(F, f)
+                if crets and len(crets) == 1 and crets[0][0] == 'field' and crets[0][2] == 'isleaf':
+                    pos = True
+            ok = pos and src is not None and any(isinstance(x, tuple) and x[:1] == ('field',) and x[2] == 'arena' for x in walk(src))
         if ok:
             ctx.ok('C13.R6', site, 'counts %s' % fmt(rets[0][2][0]), b.span)
         else:
@@ -663,6 +672,19 @@ def r6(ctx):
             if len(mx) == 1 and is_call(mx[0][2][0], 'Iterator::map') and mx[0][2][0][2][1][0] == 'closure':
                 body = prune.apply_closure(F, mx[0][2][0][2][1], ('call', 'Iterator::next', (mx[0][2][0][2][0],)))
                 ok = body is not None and traversal_depth(body) is not None
+            if not ok and e[0] in ('var', 'phi') and len(e) >= 3 and isinstance(e[1], int):
+                # running maximum: m = 0; for item in dfs_iter() { if item.depth > m { m = item.depth } }
+                defs_ = R.var_defs(e[1])
+                init = [d for d in defs_ if s(d[2]) == ('const', 0)]
+                upd = [d for d in defs_ if s(d[2]) != ('const', 0)]
+                good = len(init) == 1 and bool(upd)
+                for dbb, didx, val in upd:
+                    it = traversal_depth(val)
+                    same = lambda z: s(z) == s(e) or (isinstance(z, tuple) and z[0] in ('var', 'phi') and len(z) >= 3 and z[1] == e[1])
+                    grows = any(op_ in ('Gt', 'Ge') and s(x_) == s(val) and same(y_) or op_ in ('Lt', 'Le') and s(y_) == s(val) and same(x_)
+                                for op_, x_, y_ in prune.cmp_facts(literals(b, R, dbb)))
+                    good = good and it is not None and grows
+                ok = good
         (ctx.ok if ok else ctx.bad)('C13.R6', 'Tree::depth#values', 'maximum over the depth counters delivered by the depth-first traversal from the root' if ok else
                                     'depth() is not the maximum of the depths the traversal from the root reports (depths recomputed another way are not decided here)', b.span)
     b = ctx.body('C13.R6', 'Tree::depth_stats')
